@@ -5,7 +5,9 @@
    [p_file lf df] is the same parser with explicit loop fuel [lf] (handed to every nom loop) and depth fuel [df],
    decremented exactly where the Rust code recurses natively: Ty::parse -> Type::parse -> Ty::parse and
    ConstValue::parse -> ConstValue::parse; [parse_file s = p_file (|s|+1) (|s|+1) s]. *)
-From PVIdl Require Import Comb Ast Parser Proofs.Nesting Proofs.Total.
+From Coq Require Import String List.
+From PVIdl Require Import Comb Ast Parser Proofs.Nesting Proofs.Total Generated.IdlReps Proofs.RepSites.
+Import ListNotations.
 
 (* on every byte string (a superset of all &str) the parser returns a parse result, a recoverable error or a
    failure: never a panic (the i32 / i64 conversions are modelled with their real ranges), and the fuel
@@ -37,3 +39,26 @@ Print Assumptions C16_depth.
 Theorem C16_nesting_range : forall s : list byte, (0 <= nesting s <= Z.of_nat (length s))%Z.
 Proof. exact nesting_range. Qed.
 Print Assumptions C16_nesting_range.
+
+(* the shape half of the stack claim.  C16_depth bounds the DEPTH fuel by the nesting; that says something about the
+   native stack only if the repetitions of the Rust code are loops where the model spends LOOP fuel, and its recursion
+   is where the model spends depth fuel.  [src_rep_sites] / [src_recursive] / [nom_loop_combinators] are regenerated
+   from the Rust text on every run (tools/extract_idl.py: for every function of the 16 parser files the nom
+   combinators that apply a sub-parser repeatedly, with multiplicity; the functions that can reach themselves in the
+   call graph; whether each such combinator is a loop without self call in the source of the nom version of
+   Cargo.lock).  [model_rep_sites] / [model_depth_users] are computed by Ltac from the definitions of Parser.v
+   (Proofs/RepSites.v: unfold the definitions that port a function, count the applications of each Comb.v loop
+   combinator and the occurrences of [FDepth]).  A repetition rewritten as self-recursion -- same language, same
+   results, one native frame per iteration -- leaves C16_total and C16_depth true of the model and breaks this. *)
+Theorem C16_repetition_is_iteration :
+  src_rep_sites = model_rep_sites /\
+  src_recursive = ["ConstValue::parse"; "Ty::parse"; "Type::parse"]%string /\
+  model_depth_users = ["ConstValue::parse"; "Ty::parse"]%string /\
+  (forall lf df i, p_ty lf 0 i = PFuel FDepth /\ p_const_value lf 0 i = PFuel FDepth /\ p_type lf df = p_type_of lf (p_ty lf df)) /\
+  all_loops nom_loop_combinators = true /\
+  map fst nom_loop_combinators = ["escaped"; "many0"; "many0_count"; "many1"; "many_till"; "separated_list1"]%string /\
+  (forall A B (p : parser A) (q : parser B) c i,
+     many0 0 p i = PFuel FLoop /\ many1_loop 0 p i = PFuel FLoop /\ many0_count 0 p i = PFuel FLoop /\
+     many_till 0 p q i = PFuel FLoop /\ sep_loop 0 q p i = PFuel FLoop /\ escaped_loop 0 p c q i i = PFuel FLoop).
+Proof. exact repetition_is_iteration. Qed.
+Print Assumptions C16_repetition_is_iteration.
